@@ -161,12 +161,14 @@ def hung_stats(cases):
 
 def c07_run(ctx, search=False):
     if ctx.tier == "quick":
-        plan = [("a", 1200, 12), ("b", 60, 28)]
+        plan = [("a", 1200, 12, None), ("b", 60, 28, None), ("c", 32, 128, "64,63,65,64,128,64,127,64")]
     else:
-        plan = [("a", 16000, 14), ("b", 1500, 40)]
+        plan = [("a", 16000, 14, None), ("b", 1500, 40, None), ("c", 64, 128, "64,63,65,128,64,127,64,129")]
     cases, summaries = [], []
-    for i, (tag, count, dim) in enumerate(plan):
-        s, cs = eval_bitcases(ctx, "hung", ["--seed", ctx.seed + i, "--count", count, "--max-dim", dim, "--shards", 16], "hung")
+    for i, (tag, count, dim, exact) in enumerate(plan):
+        # batch c: column counts at and next to the multiples of 64 (the sizes at which packed sets of columns have no spare bits)
+        s, cs = eval_bitcases(ctx, "hung", ["--seed", ctx.seed + i, "--count", count, "--max-dim", dim, "--shards", 16]
+                              + (["--exact-ny", exact] if exact else []), "hung")
         summaries.append(s)
         cases += cs
     viol, known, disagree, _ = classify(ctx, cases, "maximum-weight constrained perfect matching (perfect, allowed, score = weight = optimum)",
@@ -828,6 +830,11 @@ def corpus_cases(ctx, stream):
 def spec_c02(c):
     if c["stream"] == "tree" and has(c, TREE, "class", "returned") and not has(c, TREE, "c09"):
         return "C02: the generic engine loses the best leaf of a bound-consistent tree (the optimality argument composes C09 with the node bounds)"
+    if c["stream"] == "node" and c["meta"].get("report_flag_same") is False:
+        # directly on the implementation: the theorems are about the node function, which has no such parameter in the model
+        return "C02: the logging option report_no_solution (--report-no-solution) changes what the node function returns for a subproblem " \
+               "(%s instead of %s): the search explores a different tree than the one the optimality argument is about" % (
+                   json.dumps(c["meta"].get("impl_with_report_no_solution"))[:80], json.dumps(c["meta"].get("impl"))[:80])
     if c["stream"] != "solve" or not has(c, SOLVE, "class") or c["meta"]["inst"]["rooms"] is not None:
         return None
     if not has(c, SOLVE, "nobetter"):
@@ -972,8 +979,20 @@ def c17_extra(ctx, cases):
                     rp = ctx.replay({"kind": "failing-input", "stream": "solve", "what": "C17: solution with rooms although none exists without",
                                      "case": c["meta"]})
                     viol.append(("C17: a solution is reported with rooms although no hard-feasible assignment exists at all", rp, False))
-    ctx.extra_cov = {"pairs_nonbinding_vs_none_compared": npairs, "nonbinding_lists_confirmed_in_coq": nnb, "runs_with_rooms_compared_with_exact_optimum": nupper}
-    return viol[:4], []
+    # the same relation on the real binary: no rooms / --rooms / --rooms-file, the rooms being as many as courses and as large as any course
+    # can become, the file giving one kind in several entries (instances without instructors: outside class TC)
+    pairs = clirun.run_roomsfile_pairs(ctx, vlib.build_cli(), ctx.seed + 73, 12 if ctx.tier == "quick" else 90)
+    for inst, kinds, outs in pairs:
+        if len(set(outs.values())) > 1 and len([v for v in viol if v[0].startswith("C17: the real binary")]) < 2:
+            rp = ctx.replay({"kind": "failing-input", "stream": "cli-roomsfile", "what": "C17: rooms that cannot bind change exit status / score of the binary",
+                             "instance_file_content": inst, "rooms_file_content": kinds, "outcomes": {k: list(v) for k, v in outs.items()},
+                             "how": "write both contents to files and run target/cli/debug/cdecao --num-threads 1 [--rooms-file <rooms file> | --rooms <n x capacity>] <file> <out>"})
+            viol.append(("C17: the real binary gives different exit status / quality.solution_score without rooms, with --rooms and with --rooms-file although "
+                         "the %d rooms (capacity %d each) cannot bind: %s" % (sum(k["quantity"] for k in kinds if k["capacity"] > 0), kinds[0]["capacity"],
+                                                                              sorted(outs.items())), rp, False))
+    ctx.extra_cov = {"pairs_nonbinding_vs_none_compared": npairs, "nonbinding_lists_confirmed_in_coq": nnb, "runs_with_rooms_compared_with_exact_optimum": nupper,
+                     "cli_triples_none_rooms_roomsfile_compared": len(pairs)}
+    return viol[:5], []
 
 
 def spec_c17(c):
